@@ -148,6 +148,21 @@ Definition c_peek_token_span (lx : clexer) : option span :=
   | None => None
   end.
 
+(** lexer.rs peek_parse_span / peek_cursor_pos: the parse span and cursor as they would be after the
+    looked-at token (when no filtered token lies before it), read off the buffer *)
+Definition c_peek_parse_span (lx : clexer) : option span :=
+  match c_buf lx with
+  | Some b => Some (if pos_eqb (pk_start b) (c_cur lx) then enclosing (c_ps lx) (pk_cursor b)
+                    else enclosing (c_ps lx) (c_cur lx))
+  | None => None
+  end.
+Definition c_peek_cursor_pos (lx : clexer) : option pos := option_map pk_cursor (c_buf lx).
+
+(** lexer.rs is_empty_with_filter: buffers a look-ahead (skipping filtered tokens at a parse start),
+    then compares the cursor with the end of the text *)
+Definition c_is_empty_with_filter (lx : clexer) : res (bool * clexer) :=
+  do lx' <- c_buffer_next lx; Ok (c_at_end lx', lx').
+
 (** lexer.rs:373-381 advance_up_to; 383-391 advance_to *)
 Fixpoint c_advance_up_to (fuel : nat) (lx : clexer) (p : tok -> bool) : res (bool * clexer) :=
   match fuel with
